@@ -573,12 +573,9 @@ type PathRecursiveNode struct {
 }
 
 func newPathRecursiveNode(selector string) *PathRecursiveNode {
-	node := newPathSelectorNode(selector)
 	return &PathRecursiveNode{
-		BasePathNode: &BasePathNode{
-			child: node,
-		},
-		selector: selector,
+		BasePathNode: &BasePathNode{},
+		selector:     selector,
 	}
 }
 
@@ -609,13 +606,28 @@ func valueToSliceValue(v interface{}) []interface{} {
 	return []interface{}{v}
 }
 
+// matched gives what a member called n.selector contributes: the member itself when the
+// path ends here, otherwise what the rest of the path selects from it
+func (n *PathRecursiveNode) matched(child PathNode, value reflect.Value) []interface{} {
+	var v interface{}
+	rv := reflect.ValueOf(&v)
+	if child == nil {
+		if !value.IsValid() {
+			return []interface{}{nil}
+		}
+		if err := AssignValue(value, rv); err != nil {
+			return nil
+		}
+		return []interface{}{v}
+	}
+	_ = child.Get(value, rv)
+	return valueToSliceValue(v)
+}
+
 func (n *PathRecursiveNode) Get(src, dst reflect.Value) error {
 	if !src.IsValid() {
 		// a nil interface (JSON null): there is nothing to select from
 		return fmt.Errorf("failed to get %s value from null", n.selector)
-	}
-	if n.child == nil {
-		return fmt.Errorf("failed to get by recursive path ..%s", n.selector)
 	}
 	var arr []interface{}
 	switch src.Type().Kind() {
@@ -631,17 +643,14 @@ func (n *PathRecursiveNode) Get(src, dst reflect.Value) error {
 				return err
 			}
 			if found {
-				var v interface{}
-				rv := reflect.ValueOf(&v)
-				_ = child.Get(iter.Value(), rv)
+				arr = append(arr, n.matched(child, iter.Value())...)
+			}
+			// and everything of that name further down
+			var v interface{}
+			rv := reflect.ValueOf(&v)
+			_ = n.Get(iter.Value(), rv)
+			if v != nil {
 				arr = append(arr, valueToSliceValue(v)...)
-			} else {
-				var v interface{}
-				rv := reflect.ValueOf(&v)
-				_ = n.Get(iter.Value(), rv)
-				if v != nil {
-					arr = append(arr, valueToSliceValue(v)...)
-				}
 			}
 		}
 		_ = AssignValue(reflect.ValueOf(arr), dst)
@@ -655,17 +664,14 @@ func (n *PathRecursiveNode) Get(src, dst reflect.Value) error {
 				return err
 			}
 			if found {
-				var v interface{}
-				rv := reflect.ValueOf(&v)
-				_ = child.Get(src.Field(i), rv)
+				arr = append(arr, n.matched(child, src.Field(i))...)
+			}
+			// and everything of that name further down
+			var v interface{}
+			rv := reflect.ValueOf(&v)
+			_ = n.Get(src.Field(i), rv)
+			if v != nil {
 				arr = append(arr, valueToSliceValue(v)...)
-			} else {
-				var v interface{}
-				rv := reflect.ValueOf(&v)
-				_ = n.Get(src.Field(i), rv)
-				if v != nil {
-					arr = append(arr, valueToSliceValue(v)...)
-				}
 			}
 		}
 		_ = AssignValue(reflect.ValueOf(arr), dst)
